@@ -245,17 +245,18 @@ def subprocess_validation(run, t):
         for k, v in rules.items():
             open(os.path.join(d, k + ".yaml"), "w").write(yaml.safe_dump(v, sort_keys=False))
         for n_combo, (allm, addr, rule) in enumerate(combos):
-            extra_flags = [[], ["--debug"], ["--info"], ["--enable_logging_to_terminal"]][n_combo % 4]
+          api = jasmapi.run_pipeline(rules[rule], LISTING, [{"macros": [{"name": "@m", "pattern": "call"}]}] if rule == "extra" else None, all_matches=allm, only_addr=addr, ret="list")
+          # the verbosity options only change what else is logged, never the verdict or the addresses
+          for extra_flags in ([[], ["--debug"], ["--info"], ["--enable_logging_to_terminal"]][n_combo % 4], ["--debug"]):
             argv = [ch.PY, "-m", "jasm.main", "-p", rule + ".yaml", "-s", "in.s"] + extra_flags + (["--all-matches"] if allm else []) + (["--return_only_address"] if addr else []) + (["--macros", "m.yaml"] if rule == "extra" else [])
             p = subprocess.run(argv, cwd=d, env=env, capture_output=True, text=True, timeout=120)
             logged = [l.split("Matched address: ", 1)[1] for l in p.stderr.splitlines() if "Matched address: " in l]
-            found = any("RESULT: Pattern found" in l for l in p.stderr.splitlines())
-            notfound = any("RESULT: Pattern not found" in l for l in p.stderr.splitlines())
-            api = jasmapi.run_pipeline(rules[rule], LISTING, [{"macros": [{"name": "@m", "pattern": "call"}]}] if rule == "extra" else None, all_matches=allm, only_addr=addr, ret="list")
+            found = sum("RESULT: Pattern found" in l for l in p.stderr.splitlines())
+            notfound = sum("RESULT: Pattern not found" in l for l in p.stderr.splitlines())
             run.count("traces_validated_against_impl")
-            ok = p.returncode == 0 and logged == api and found == bool(api) and notfound == (not api)
+            ok = p.returncode == 0 and logged == api and found == (1 if api else 0) and notfound == (0 if api else 1)
             if not ok:
-                run.failure("cli/SUBPROCESS", f"argv={argv[2:]} rc={p.returncode} logged={logged} api={api} found={found}", {"kind": "cli", "argv": argv[2:]})
+                run.failure("cli/SUBPROCESS", f"argv={argv[2:]} rc={p.returncode} logged={logged} api={api} found={found} notfound={notfound}", {"kind": "cli", "argv": argv[2:]})
         # a long match through the real terminal handler: the logged text must be the API's text, whole
         long_rule = {"pattern": [{"mov": {"times": 12}}]}
         long_listing = "".join(f"    {0x401000 + 3 * i:x}:\t48 89 c3             \tmov    %rax,%rbx\n" for i in range(30))
